@@ -7,10 +7,14 @@ Driver for the engine `order` (C03, end-to-end half).  One case = one scenario b
 records (op ⇒ implementation's observation):
   `reset`                                              ⇒ `ok`
   `cfg tr=<transport> dir=<c2s|s2c|s2ci> pv=<version>` ⇒ `ok` | `connect-fail` | `setup-fail` | `carrier-fail` | `panic` …
-  `m <i> dir=<c2s|s2c> kind=<i|n|c|g|r> meth=<name> d=<ms> gap=<ms> cb=<0|1>`
+  `m <i> dir=<c2s|s2c> kind=<i|n|c|g|r> meth=<name> d=<ms> gap=<ms> cb=<0|1> [b=<body> rs=<ms>]`
         ⇒ `snd=<seq>@<ms> ret=<seq>@<ms> err=<0|1> beg=<seq>@<ms> fin=<seq>@<ms> n=<handler runs>`   (`-` = did not happen)
   `end`                                                ⇒ `extra=<handler runs without a known tag> t=<ms>`
 
+`b` (raw streamable peer only): messages with the same `b` ≠ 0 travel in ONE POST body (a JSON-RPC batch), in
+record order; `snd` of all of them is logged before the POST, `ret` of all of them when the POST has been
+answered (202, or the complete response stream if the body contains calls).  `rs`: the session's reader
+pauses that long after reading the message (a schedule, invisible to the model).
 `kind`: i = the initialize call, n = notification, c = call the sender waits for, g/r = call issued
 from a goroutine of its own.  `snd`/`ret` = the sender's API call begins / returns, `beg`/`fin` = the
 peer's handler (outermost receiving middleware) starts / ends; `<seq>` is the position in the global
@@ -19,7 +23,9 @@ event log.
 Model side (`D` when it disagrees): every message whose sending call did not fail is handled exactly
 once (`n=1`), nothing unknown is handled (`extra=0`), and — at `end`, per direction — the observed event
 sequence must be the visible part of a run of `Order.step` (the invisible `write`/`disp`/`rel` labels
-are found by search: `disp`/`rel` eagerly, `write` by backtracking; client→server traffic of a stateless
+are found by search: `disp`/`rel` eagerly, `write` lazily — right before the first event that is not enabled
+without it — with backtracking over which message is written, and, should that fail, by exhaustive
+backtracking bounded by a step budget; a message of a body is a `bsend` carrying its predecessors; client→server traffic of a stateless
 streamable server is checked against `Order.stepE`, one temporary session per message); otherwise
 `rejected=<dir>@<seq>`.
 Monitor side (`V`): the property itself, `Order.holdsOn` (proved to accept every model run:
@@ -51,6 +57,7 @@ structure Msg where
   beg : Option (Nat × Nat)
   fin : Option (Nat × Nat)
   n : Nat
+  body : Nat := 0
 
 structure St where
   tr : String := ""
@@ -78,7 +85,8 @@ def parseMsg (toks : List String) (impl : String) : Option Msg := do
   let err ← kv o "err"
   let n ← (← kv o "n").toNat?
   if dir != "c2s" && dir != "s2c" then none
-  pure { id := id, toServer := dir == "c2s", isCall := k != "n", meth := meth, kindTok := k,
+  let body := ((kv toks "b").bind (·.toNat?)).getD 0
+  pure { body := body, id := id, toServer := dir == "c2s", isCall := k != "n", meth := meth, kindTok := k,
          snd := snd, ret := if err == "1" then none else ret, err := err == "1", beg := beg, fin := fin, n := n }
 
 def showAt : Option (Nat × Nat) → String
@@ -105,6 +113,11 @@ def monitorMsg (st : St) (m : Msg) : Option String :=
     else some s!"C03: message {m.id} ({m.meth}) was sent without error but its handler never ran to completion"
   else none
 
+/-- The messages that stand before `m` in the POST body that carries it (record order = body order). -/
+def bodyPreds (msgs : List Msg) (m : Msg) : List Nat :=
+  if m.body == 0 then [] else
+    ((msgs.takeWhile fun x => x.id != m.id).filter fun x => x.toServer == m.toServer && x.body == m.body).map (·.id)
+
 /-- The event sequence of one direction, in global log order. -/
 def eventsOf (msgs : List Msg) (toServer : Bool) : List (Nat × Ev) :=
   let evs := msgs.foldl (fun acc m =>
@@ -112,7 +125,8 @@ def eventsOf (msgs : List Msg) (toServer : Bool) : List (Nat × Ev) :=
     let add (acc : List (Nat × Ev)) (o : Option (Nat × Nat)) (e : Ev) := match o with
       | some (q, _) => (q, e) :: acc
       | none => acc
-    add (add (add (add acc m.snd (.snd m.id)) m.ret (.ret m.id)) m.beg (.beg m.id)) m.fin (.fin m.id)) []
+    let ps := bodyPreds msgs m
+    add (add (add (add acc m.snd (if ps.isEmpty then .snd m.id else .bsnd ps m.id)) m.ret (.ret m.id)) m.beg (.beg m.id)) m.fin (.fin m.id)) []
   (evs.toArray.qsort fun a b => a.1 < b.1).toList
 
 def kindFn (msgs : List Msg) : Nat → Kind := fun i =>
@@ -122,6 +136,7 @@ def kindFn (msgs : List Msg) : Nat → Kind := fun i =>
 
 def Ev.label : Ev → Label
   | .snd i => .send i
+  | .bsnd ps i => .bsend ps i
   | .ret i => .ret i
   | .beg i => .start i
   | .fin i => .fin i
@@ -141,25 +156,58 @@ def settle (kind : Nat → Kind) (s : State) : Nat → State
       | none => s
     | none, [] => s
 
-/-- Is the event sequence the visible part of a model run?  Returns the number of events matched and
-whether all were.  `write` labels are placed by backtracking (any sending message may be written before
-the next event). -/
-partial def search (kind : Nat → Kind) (ids : List Nat) (s : State) (evs : List (Nat × Ev)) (pos : Nat) : Nat × Bool :=
+/-- Result of a search: events matched on the best attempt, success, step budget left. -/
+structure SR where
+  pos : Nat
+  ok : Bool
+  fuel : Nat
+deriving Inhabited
+
+/-- Is the event sequence the visible part of a model run?  `write` labels are placed lazily: only when the
+next event is not enabled, and then any sending message may be written (backtracking over which).  Moving a
+`write` to the right past an event that is enabled without it preserves being a run (no visible label is
+disabled by a message still being outside the queue, `disp`/`rel` are taken eagerly anyway, and the order
+among the writes is kept), so this finds a run whenever there is one. -/
+partial def searchLazy (kind : Nat → Kind) (ids : List Nat) (s : State) (evs : List (Nat × Ev)) (pos fuel : Nat) : SR :=
   let s := settle kind s (2 * ids.length + 2)
   match evs with
-  | [] => (pos, true)
+  | [] => ⟨pos, true, fuel⟩
   | (_, e) :: rest =>
-    let direct := match step kind s e.label with
-      | some s' => search kind ids s' rest (pos + 1)
-      | none => (pos, false)
-    if direct.2 then direct else
-      (ids.filter fun k => s.phase k == .sending).foldl (fun best k =>
-        if best.2 then best else
+    match step kind s e.label with
+    | some s' => searchLazy kind ids s' rest (pos + 1) fuel
+    | none =>
+      (ids.filter fun k => s.phase k == .sending).foldl (fun (best : SR) k =>
+        if best.ok || best.fuel == 0 then best else
           match step kind s (.write k) with
           | some s' =>
-            let r := search kind ids s' evs pos
-            if r.2 || r.1 > best.1 then r else best
+            let r := searchLazy kind ids s' evs pos (best.fuel - 1)
+            if r.ok || r.pos > best.pos then r else { best with fuel := r.fuel }
+          | none => best) ⟨pos, false, fuel⟩
+
+/-- Exhaustive variant (any sending message may be written before any event), bounded by the step budget. -/
+partial def searchAll (kind : Nat → Kind) (ids : List Nat) (s : State) (evs : List (Nat × Ev)) (pos fuel : Nat) : SR :=
+  let s := settle kind s (2 * ids.length + 2)
+  match evs with
+  | [] => ⟨pos, true, fuel⟩
+  | (_, e) :: rest =>
+    if fuel == 0 then ⟨pos, false, 0⟩ else
+    let direct : SR := match step kind s e.label with
+      | some s' => searchAll kind ids s' rest (pos + 1) (fuel - 1)
+      | none => ⟨pos, false, fuel - 1⟩
+    if direct.ok then direct else
+      (ids.filter fun k => s.phase k == .sending).foldl (fun (best : SR) k =>
+        if best.ok || best.fuel == 0 then best else
+          match step kind s (.write k) with
+          | some s' =>
+            let r := searchAll kind ids s' evs pos (best.fuel - 1)
+            if r.ok || r.pos > best.pos then r else { best with fuel := r.fuel }
           | none => best) direct
+
+def search (kind : Nat → Kind) (ids : List Nat) (s : State) (evs : List (Nat × Ev)) (pos : Nat) : Nat × Bool :=
+  let r := searchLazy kind ids s evs pos 20000
+  if r.ok then (r.pos, true) else
+    let r2 := searchAll kind ids s evs pos 20000
+    if r2.ok then (r2.pos, true) else (max r.pos r2.pos, false)
 
 /-- Ephemeral sessions: no invisible labels, the event sequence itself must be a run of `stepE`. -/
 def searchE (s : State) (evs : List (Nat × Ev)) (pos : Nat) : Nat × Bool :=
@@ -194,7 +242,16 @@ def orderClause (st : St) (toServer : Bool) : Option String :=
       | none => false
     let pre := if stateless st.tr && isNote && toServer then "C03: F14 stateless streamable server: " else "C03: "
     let dir := if toServer then "client→server" else "server→client"
-    some s!"{pre}{dir}: the handler of message {name j} started before the handler of message {name i} had finished, although the call that sent {i} had returned before {j} was sent"
+    let sameBody := match st.msgs.find? fun m => m.id == j with
+      | some m => (bodyPreds st.msgs m).contains i
+      | none => false
+    if sameBody then
+      some s!"{pre}{dir}: the handler of message {name j} started before the handler of message {name i} had finished, although {i} stands before {j} in the POST body (JSON-RPC batch) that carried both: messages of one peer must be dispatched in the order they were sent"
+    else
+    let acked := match st.msgs.find? fun m => m.id == i with
+      | some m => if m.body != 0 then s!" (the POST that carried {i} had been answered: an acknowledgement may be given only after the messages are queued)" else ""
+      | none => ""
+    some s!"{pre}{dir}: the handler of message {name j} started before the handler of message {name i} had finished, although the call that sent {i} had returned before {j} was sent{acked}"
 
 def engine : Engine St where
   init := {}
